@@ -110,6 +110,11 @@ def core_cases(rng: random.Random, calls_only):
         for c in out:
             c.update(abandon_after=1, reenter=rng.random() < 0.5, capacity=16)
     rng.shuffle(out)
+    if True:
+        # an input that cannot be pickled, to a first stage running in processes: its own request fails, nothing else
+        # (and the server still exits with every worker process gone and can be entered again)
+        out.insert(0, {'stages': [stage('process', 1), stage('process', 2, b=4)], 'xs': [1, 2, 3, 4], 'in_pad': 0, 'unsendable': [2],
+                       'workload': 'calls', 'abandon_after': 1, 'reenter': True, 'capacity': 2})
     return out
 
 
@@ -173,6 +178,8 @@ def run_case(cfg):
     pad = bytes(cfg['in_pad']) if cfg['in_pad'] else None
 
     def wrap(x):
+        if x in cfg.get('unsendable', ()):
+            return (x, threading.Lock())           # cannot be pickled
         return (x, pad) if pad is not None else x
 
     server = Server(build(cfg), capacity=cfg['capacity'])
@@ -282,6 +289,10 @@ def oracle(r):
             want, got = spec(cfg, x), o['results'].get(str(x))
             if got is None:
                 return (f'request {x} got no outcome', None)
+            if x in cfg.get('unsendable', ()):
+                if got[0] != 'err' or got[2]['cls'] not in ('TypeError', 'PicklingError', 'AttributeError'):
+                    return (f'request {x} (an input that cannot be pickled for the worker processes) received {got}, expected the pickling error', None)
+                continue
             if want[0] == 'ok':
                 if got[0] != 'ok' or got[1] != want[1]:
                     return (f'request {x} received {got[:2]}, sequential meaning gives {want}', None)
